@@ -1,3 +1,4 @@
+\* pass P, strict: BytesExact / EmptyIsZero without the named-deviation exemption (concurrent driver in the exact environment; candidates)
 CONSTANT Threads = {"t1", "t2", "t3", "t4"}
 CONSTANT Keys <- TKeys
 CONSTANT CvKeys <- TCvKeys
